@@ -96,20 +96,34 @@ def check_frame_reader(ctx, rule, P, fn_key, buf_desc, strict=True):
     # the message: the value of the CtOption built with a non-constant flag
     main = [(bb, v, fl) for bb, v, fl in R.ctoption_sites(P, fn) if G.formula(fl, P) != G.FALSE]
     msg = None
+    msg_get = False
     for bb, s_ in sorted(ev.sites.items()):
         if s_.callee[0] not in ("Index::index", "slice::<impl [T]>::get", "slice::<impl [T]>::split_at"):
             continue
-        sf = B.slice_form(s_.value)
+        via_get = s_.callee[0] == "slice::<impl [T]>::get"
+        # `x.get(r)`: the message is the payload of the Some arm, and that arm is the bounds test of `r` against x
+        sf = B.slice_form(T("field", T("downcast", s_.value, "Some"), "0") if via_get else s_.value)
         if sf is None or sf[0] != buf or not B.lin_eq(sf[1], n) or B.lin_eq(sf[2], blen):
             continue
         # it is the value handed out with the non-constant flag
         sv = strip_sites(s_.value)
         if any(any(x == sv for x in subterms(strip_sites(v))) for _, v, _ in main):
             msg = (bb, sf)
+            if via_get:
+                inner = B.slice_form(s_.args[0])
+                get_end = inner[2] if inner is not None else ("len", strip_sites(B.peel(s_.args[0])))
+                get_base_ok = (inner[0] if inner is not None else strip_sites(B.peel(s_.args[0]))) == buf and B.lin_eq(get_end, blen)
+                msg_get = get_base_ok
     if msg is None:
         ctx.ob(rule + ".anchor", fn_key + "/slice", False, "message slice of %s not found in `%s`" % (buf_desc, fn_key), where=where(fn))
         return
     mbb, (_, st, en) = msg
+    # a message of ANY length (the empty one included) comes back: no branch looks at the recovered message itself
+    msv = strip_sites(ev.sites[mbb].value)
+    from . import flow as F_
+
+    blind_bad = [b for b, d in sorted(ev.switch.items()) if d is not None and b != mbb and F_.reads_directly(d, (), targets=(msv,)) and not (strip_sites(d).op == "discr" and B.peel(strip_sites(d).a[0]) == B.peel(msv))]
+    ctx.ob(rule, fn_key + "/message-blind", not blind_bad, "no branch of %s tests the recovered message (its emptiness, length or bytes)%s" % (fn_key, "" if not blind_bad else ": " + show(strip_sites(ev.switch[blind_bad[0]]), 4)[:140]), where=where(fn, blind_bad[0] if blind_bad else mbb))
     L = B.lin_sub(en, st)
     Lterms = [k[1] for k in (B._lin(L) or (0, {}))[1]] if L is not None else []
     decoded = L is not None and len(Lterms) == 1 and any(s.op == "call" and B.cname(s) == "TryFrom::try_from" for s in subterms(Lterms[0]))
@@ -136,6 +150,10 @@ def check_frame_reader(ctx, rule, P, fn_key, buf_desc, strict=True):
             bound = True
         if op == "Ge" and B._lin(("sub", fb, fa)) == target:
             bound = True
+    if msg_get:
+        # P[n..].get(..L) (or P.get(n..n+L)) measured against the end of the buffer itself: Some  <=>  n + L <= |P|
+        bound = True
+        shown.append("Some arm of get(..) against the end of %s" % buf_desc)
     ctx.ob(rule, fn_key + "/bound", bound, "slice is dominated by L <= |%s| - n (found conditions: %s)" % (buf_desc, shown[:4]), where=where(fn, mbb), sample={"conditions": shown[:4]})
     # the failing branch yields a constant-false flag
     ct = R.ctoption_sites(P, fn)
@@ -586,3 +604,23 @@ def payload_role(segs):
         if t.op == "named":
             return "const:" + t.a[0]
     return B.show_nf(segs)
+
+
+def check_decrypt_passthrough(ctx, P, rule="E6.pass", callee="BlsSignCrypt::decrypt", floor=3):
+    """Every function that calls the frame reader hands its result on unfiltered: what it returns is that call's value
+    itself or a constant rejection (an empty message, a 32-byte message, a message of zeros are messages like any other)."""
+    n = 0
+    for k, g in sorted(P.fns.items()):
+        if g.from_expansion or g.key == callee:
+            continue
+        gev = evaluate(g)
+        sites = [(bb, s_) for bb, s_ in sorted(gev.sites.items()) if s_.callee[0] == callee]
+        if not sites:
+            continue
+        n += 1
+        gr = strip_sites(gev.ret)
+        alts = list(gr.a[0]) if gr.op == "phi" else [gr]
+        dvs = [strip_sites(s_.value) for _, s_ in sites]
+        bad = [show(a_, 3) for a_ in alts if a_ not in dvs and not (a_.op == "call" and B.cname(a_) == "CtOption::<T>::new" and len(a_.a[1]) == 2 and G.formula(a_.a[1][1], P) == G.FALSE)]
+        ctx.ob(rule, "%s/result" % k, not bad, "%s returns the result of %s itself (or a constant rejection)%s" % (k, callee.split("::")[-1], "" if not bad else "; other results: %s" % bad[:2]), where=where(g, sites[0][0]))
+    ctx.floor(rule, "callers of %s" % callee, n, floor)
